@@ -19,6 +19,8 @@ import (
 	"os"
 	"os/exec"
 	"path/filepath"
+	"runtime"
+	"runtime/debug"
 	"strings"
 	"sync"
 
@@ -86,6 +88,8 @@ func seenKey(c *vcase) string {
 }
 
 func main() {
+	runtime.GOMAXPROCS(3) // the machine is shared; the GC workers of 16 Ps only burn system time
+	debug.SetGCPercent(400)
 	f := hx.ParseFlags()
 	o = hx.NewOut(f.Out)
 	defer o.Close()
